@@ -1,0 +1,27 @@
+//go:build verif
+
+package loadbalancer
+
+import "github.com/0xReLogic/Helios/internal/circuitbreaker"
+
+// VerifBackends returns the live *Backend values of the current strategy.
+func (lb *LoadBalancer) VerifBackends() []*Backend {
+	lb.mutex.RLock()
+	defer lb.mutex.RUnlock()
+	return lb.strategy.GetBackends()
+}
+
+// VerifBreaker returns the balancer's circuit breaker (nil when disabled).
+func (lb *LoadBalancer) VerifBreaker() *circuitbreaker.CircuitBreaker {
+	return lb.circuitBreaker
+}
+
+// VerifWSPool returns the balancer's WebSocket pool (nil when disabled).
+func (lb *LoadBalancer) VerifWSPool() *WebSocketPool {
+	return lb.wsPool
+}
+
+// VerifJumpHash exposes the jump consistent hash step.
+func VerifJumpHash(key uint64, numBuckets int32) int32 {
+	return jumpHash(key, numBuckets)
+}
